@@ -5,6 +5,7 @@ PROP = "C19"
 LEAN_MODS = ["Cte.Props.C19"]
 HARNESS = "c19"
 N = {"quick": 1, "thorough": 1}
+USES_DRIVER = True
 CORRESPONDENCES = ["Polygon::edge_vertices(name) on an outline of n vertices = Damage.edgeVertices (indices, none, never a crash)"]
 SPEC_FAMILIES = (CORRESPONDENCES[0],)
 RULE = ("fault enumeration on the implementation: every shipped project file (12 .ctehexml, 56 .cte, 3 KyGananciasSolares.txt, 6 NewBDL_O.tbl) "
